@@ -417,6 +417,48 @@ func keysIssues(rs *Resid, fn *ast.FuncDecl) []sideIssue {
 	if key == nil || key.Name == "_" {
 		return []sideIssue{{rng, "the range does not bind the key", "no-key", ""}}
 	}
+	// the filling form: acc := make([]K, len(m)); i := 0; for key := range m { acc[i] = key; i++ } — every key stored at the
+	// next index of a slice that has exactly len(m) elements
+	if len(rng.Body.List) == 2 {
+		as, ok1 := rng.Body.List[0].(*ast.AssignStmt)
+		inc, ok2 := rng.Body.List[1].(*ast.IncDecStmt)
+		if ok1 && ok2 && inc.Tok == token.INC && len(as.Lhs) == 1 && len(as.Rhs) == 1 && canon(as.Rhs[0]) == key.Name {
+			if ix, ok := as.Lhs[0].(*ast.IndexExpr); ok && canon(ix.Index) == canon(inc.X) {
+				acc, idx := canon(ix.X), canon(inc.X)
+				okMake, okZero := false, false
+				for _, st := range fn.Body.List {
+					d, ok := st.(*ast.AssignStmt)
+					if !ok || d.Tok != token.DEFINE || len(d.Lhs) != 1 || len(d.Rhs) != 1 || d.Pos() > rng.Pos() {
+						continue
+					}
+					if canon(d.Lhs[0]) == acc {
+						if c, ok := d.Rhs[0].(*ast.CallExpr); ok && canon(c.Fun) == "make" && len(c.Args) == 2 {
+							if la := lenExprArg(c.Args[1]); la != nil && canon(la) == m {
+								okMake = true
+							}
+						}
+					}
+					if canon(d.Lhs[0]) == idx && canon(d.Rhs[0]) == "0" {
+						okZero = true
+					}
+				}
+				last, isRet := fn.Body.List[len(fn.Body.List)-1].(*ast.ReturnStmt)
+				if okMake && okZero && isRet && len(last.Results) == 1 && canon(last.Results[0]) == acc {
+					// nothing else may touch the index or the slice
+					n := 0
+					ast.Inspect(fn.Body, func(x ast.Node) bool {
+						if id, ok := x.(*ast.Ident); ok && (id.Name == idx) {
+							n++
+						}
+						return true
+					})
+					if n == 3 {
+						return out
+					}
+				}
+			}
+		}
+	}
 	// loop body: exactly appends of key to one slice, no branches
 	var acc string
 	for _, st := range rng.Body.List {
@@ -525,6 +567,10 @@ func sortLessRules(c *Ctx) {
 					okKind = true
 				}
 				if strings.HasPrefix(d.Sym, "K:") && strings.HasSuffix(d.Sym, ".Elem():*types.Basic") && d.Choice == 0 {
+					exactBasic = true
+				}
+				// the same established by a type assertion on the element type itself (not on its Underlying())
+				if strings.HasPrefix(d.Sym, "A:") && strings.HasSuffix(d.Sym, ".Elem():*types.Basic") && !strings.Contains(d.Sym, "Underlying().Elem()") && d.Choice == 0 {
 					exactBasic = true
 				}
 			}
